@@ -1,9 +1,9 @@
-SPECIFICATION GSpec
+\* design variant "backup by hard link (copy on EXDEV) + in-place overwrite" where every link fails: indistinguishable from the design
+SPECIFICATION Spec
 CONSTANTS
-  SameFs = TRUE
-  LinkBackup = FALSE
+  SameFs = FALSE
+  LinkBackup = TRUE
 INVARIANTS
-  Emit
   TypeOK
   RoundTrip
   StopBeforeReplaceObs
@@ -20,4 +20,8 @@ INVARIANTS
   FailOnlyFromPartialBackup
   LnkSound
   BackupIsSeparate
-CHECK_DEADLOCK FALSE
+PROPERTIES
+  StopBeforeReplace
+  Frame
+  BackupTouchedOnlyBy
+CHECK_DEADLOCK TRUE
